@@ -310,6 +310,11 @@ def _ok(v):
     return f"ok {v}"
 
 
+# documented defaults (utils.py docstrings / Cobalt Strike conventions): netbios offset 'A', little-endian unsigned minimal-width
+# integers, x86 stager URIs of 4 characters
+DOC_DEFAULTS = {"offset": 0x41, "size": None, "byteorder": "little", "signed": False, "x64": False, "length": 4}
+
+
 def impl(stream, line):
     w = line.split()
     if stream.startswith("g-"):
@@ -317,32 +322,32 @@ def impl(stream, line):
         if stream == "g-xor":
             return _ok(utils.xor(C.unhx(w[1]), C.unhx(w[2])))
         if stream == "g-nbenc":
-            return _ok(utils.netbios_encode(C.unhx(w[1]), int(w[2])))
+            return _ok(utils.netbios_encode(C.unhx(w[1]), **C.drop_defaults(line, DOC_DEFAULTS, offset=int(w[2]))))
         if stream == "g-nbdec":
-            return _ok(utils.netbios_decode(C.unhx(w[1]), int(w[2])))
+            return _ok(utils.netbios_decode(C.unhx(w[1]), **C.drop_defaults(line, DOC_DEFAULTS, offset=int(w[2]))))
         if stream == "g-pack":
-            return _ok(utils.pack(int(w[1]), size, byteorder=w[3], signed=w[4] == "T"))
+            return _ok(utils.pack(int(w[1]), **C.drop_defaults(line, DOC_DEFAULTS, size=size, byteorder=w[3], signed=w[4] == "T")))
         if stream == "g-unpack":
-            return _ok(utils.unpack(C.unhx(w[1]), size, byteorder=w[3], signed=w[4] == "T"))
+            return _ok(utils.unpack(C.unhx(w[1]), **C.drop_defaults(line, DOC_DEFAULTS, size=size, byteorder=w[3], signed=w[4] == "T")))
         if stream == "g-uri":
             t = "".join(chr(int(x)) for x in w[1][1:].split(",") if x)
             return f"ok {utils.checksum8(t)} {C.tf(utils.is_stager_x86(t))} {C.tf(utils.is_stager_x64(t))}"
         if stream == "g-part":
             f = getattr(utils, w[1])
             arg = C.unhx(w[2]) if w[1].startswith("u") else int(w[2])
-            return _ok(f(arg, signed=w[3] == "T"))
+            return _ok(f(arg, **C.drop_defaults(line, DOC_DEFAULTS, signed=w[3] == "T")))
     if stream == "xor":
         return C.hx(utils.xor(C.unhx(w[1]), C.unhx(w[2])))
     if stream == "nbenc":
-        return "ok " + C.hx(utils.netbios_encode(C.unhx(w[1]), int(w[2])))
+        return "ok " + C.hx(utils.netbios_encode(C.unhx(w[1]), **C.drop_defaults(line, DOC_DEFAULTS, offset=int(w[2]))))
     if stream == "nbdec":
-        return "ok " + C.hx(utils.netbios_decode(C.unhx(w[1]), int(w[2])))
+        return "ok " + C.hx(utils.netbios_decode(C.unhx(w[1]), **C.drop_defaults(line, DOC_DEFAULTS, offset=int(w[2]))))
     if stream == "pack":
         size = None if w[2] == "none" else int(w[2])
-        return "ok " + C.hx(utils.pack(int(w[1]), size, byteorder=w[3], signed=w[4] == "T"))
+        return "ok " + C.hx(utils.pack(int(w[1]), **C.drop_defaults(line, DOC_DEFAULTS, size=size, byteorder=w[3], signed=w[4] == "T")))
     if stream == "unpack":
         size = None if w[2] == "none" else int(w[2])
-        return str(utils.unpack(C.unhx(w[1]), size, byteorder=w[3], signed=w[4] == "T"))
+        return str(utils.unpack(C.unhx(w[1]), **C.drop_defaults(line, DOC_DEFAULTS, size=size, byteorder=w[3], signed=w[4] == "T")))
     if stream == "uri":
         t = "".join(chr(int(x)) for x in w[1][1:].split(",") if x)
         return f"{utils.checksum8(t)} {C.tf(utils.is_stager_x86(t))} {C.tf(utils.is_stager_x64(t))}"
@@ -351,7 +356,7 @@ def impl(stream, line):
         saved = utils.random
         utils.random = _ScriptedRandom(cs)
         try:
-            u = utils.random_stager_uri(x64=w[1] == "T", length=int(w[2]))
+            u = utils.random_stager_uri(**C.drop_defaults(line, DOC_DEFAULTS, x64=w[1] == "T", length=int(w[2])))
             return "ok l" + ",".join(str(ord(c)) for c in u)
         except _Exhausted:
             return "ok none"
